@@ -89,7 +89,15 @@ def generate(rng, tier):
         ops.append({"t": 0.0, "op": "host", "h": "H", "ip": "10.0.0.2"})
         ops.append({"t": round(rng.choice([0.01, t_reg - 0.4, t_reg - 0.1, t_reg + 0.01]), 6), "op": "register", "h": "H",
                     "svc": other})
-    ops.append({"t": t_reg, "op": "register", "h": "R", "svc": svc, "allow_name_change": allow})
+    if t_reg >= 2.0 and rng.random() < 0.25:
+        # the application registered and unregistered the same ServiceInfo before: what it registers now is a used object
+        # (its defaulted server name is filled in, its goodbyes may still be going out)
+        t_first = round(max(0.01, t_reg - rng.choice([2.5, 3.0])), 6)
+        ops.append({"t": t_first, "op": "register", "h": "R", "svc": svc, "allow_name_change": False})
+        ops.append({"t": round(t_reg - rng.choice([0.0, 0.02, 0.13, 0.3, 0.8]), 6), "op": "unregister", "h": "R",
+                    "name": svc["name"]})
+        ops = [o for o in ops if not (o["op"] == "send" and o["t"] <= t_first + 1.0)]
+    ops.append({"t": t_reg, "op": "register", "h": "R", "svc": svc, "allow_name_change": allow, "reuse": True})
     if rng.random() < 0.2:
         # the registrant's process is descheduled for a while during probing or announcing
         ops.append({"t": round(t_reg + rng.choice([0.05, 0.12, 0.17, 0.2, 0.3, 0.36, 0.5]), 6), "op": "stall", "h": "R",
@@ -239,6 +247,7 @@ def _oracle(w, drv, sc, hm, stats, out):
     rtx = [tx for tx in w.net.trace if tx.host == "R" and tx.msg is not None]
     regs = [e for e in w.api_log if e["op"] == "register" and e["host"] == "R"]
     final_names = []
+    held_as = {}  # final name -> name it was asked for (the application unregisters by the object, i.e. by that name)
     overlap = any(a is not b and a["t_done"] is not None and a["t_call"] <= b["t_call"] < a["t_done"]
                   for a in regs for b in regs)
     if overlap:
@@ -299,11 +308,19 @@ def _oracle(w, drv, sc, hm, stats, out):
             continue
         # success
         info = e["info"]
-        final = info.name
+        final = e.get("named", {}).get("name", info.name)
         stats["registered"] += 1
+        for u in w.api_log:
+            # a name that was unregistered in between is free again
+            if u["op"] == "unregister" and u["host"] == "R" and u["t_call"] <= t_call and not u.get("_c09_seen"):
+                u["_c09_seen"] = True
+                gone = u["info"].name if False else u["args"]
+                final_names[:] = [n for n in final_names if not (n.lower() == gone.lower() or
+                                                                 held_as.get(n.lower()) == gone.lower())]
         if final in final_names:
             out.add("C09.same-name-twice", f"the instance registered {final} twice")
         final_names.append(final)
+        held_as[final.lower()] = orig.lower()
         if final != orig:
             stats["renamed"] += 1
             if not allow:
@@ -367,6 +384,19 @@ def _oracle(w, drv, sc, hm, stats, out):
                         f"addresses and NSEC (flush on all but PTR, configured TTLs) not found; responses near: "
                         f"{[(round(tx.t - t0, 4), tx.msg.answers[:2]) for tx in near][:2]}", k=k3)
                 break
+        # a name is not spoken for before it has been probed: no response - not even a goodbye - carries records of the
+        # name the service was renamed to before the last probe for that name
+        if final != orig:
+            for tx in rtx:
+                if tx.t < t_call or tx.t >= t_last_probe - 1e-9 or not tx.msg.is_response:
+                    continue
+                mine = [r for r in tx.msg.records() if r.name.lower() == final.lower() or
+                        (r.type == wire.T_PTR and r.rdata.lower() == final.lower())]
+                if mine:
+                    out.add("C09.response-before-probing", f"{final}: {mine[0]!r} sent at {tx.t - t0:.6f}, before the last "
+                            f"probe for that name at {t_last_probe - t0:.6f} (registration called at {t_call - t0:.6f})",
+                            goodbye=mine[0].ttl == 0)
+                    break
         # the contested names are never announced or answered for
         for nm in chain[:-1]:
             if nm in final_names:
